@@ -66,7 +66,22 @@ fn try_open_in_thread(base: std::path::PathBuf, capi: bool) -> Attempt {
 pub fn worker(args: &[String]) -> i32 {
     let Some(base) = args.first() else { return 2 };
     let only_try = args.get(1).map(|s| s == "try").unwrap_or(false);
-    match Db::open(base) {
+    // a holder (not a `try`) may be started right after this harness dropped its own handle:
+    // a concurrently forked child of another shard can share that descriptor (and its lock)
+    // until it execs, so the holder retries briefly
+    let mut opened = Db::open(base);
+    if !only_try {
+        for _ in 0..40 {
+            match &opened {
+                Err(e) if e.to_string().contains("already open for writing") => {
+                    std::thread::sleep(Duration::from_millis(50));
+                    opened = Db::open(base);
+                }
+                _ => break,
+            }
+        }
+    }
+    match opened {
         Ok(db) => {
             println!("OPENED");
             let _ = std::io::stdout().flush();
